@@ -89,9 +89,9 @@ func Sponge(rate int, ds byte, nr int, msg []byte, n int) []byte {
 	}
 }
 
-func SHA3(bitsOut int, msg []byte) []byte { return Sponge(200-2*bitsOut/8, 0x06, 24, msg, bitsOut/8) }
-func SHAKE128(msg []byte, n int) []byte { return Sponge(168, 0x1f, 24, msg, n) }
-func SHAKE256(msg []byte, n int) []byte { return Sponge(136, 0x1f, 24, msg, n) }
+func SHA3(bitsOut int, msg []byte) []byte            { return Sponge(200-2*bitsOut/8, 0x06, 24, msg, bitsOut/8) }
+func SHAKE128(msg []byte, n int) []byte              { return Sponge(168, 0x1f, 24, msg, n) }
+func SHAKE256(msg []byte, n int) []byte              { return Sponge(136, 0x1f, 24, msg, n) }
 func TurboSHAKE128(msg []byte, d byte, n int) []byte { return Sponge(168, d, 12, msg, n) }
 func TurboSHAKE256(msg []byte, d byte, n int) []byte { return Sponge(136, d, 12, msg, n) }
 
